@@ -52,3 +52,7 @@ open Pandora.C10 Pandora.Filter Pandora.Blocks
 #print axioms Pandora.C10Kernels.filterDisparityMedian_generated
 #print axioms Pandora.C10Kernels.filterDisparityMedian_spec
 #print axioms Pandora.C10Kernels.medianFilter_generated_spec
+#print axioms Pandora.C10Kernels.bilateralKernel_generated
+#print axioms Pandora.C10Kernels.filterBilateral_generated
+#print axioms Pandora.C10Kernels.filterDisparityBilateral_generated
+#print axioms Pandora.C10Kernels.filterDisparityBilateral_spec
